@@ -7,7 +7,7 @@
    with queries.  [slot gs g i] is connection slot i of gate g, a [conn] is
    (peer gate, slot index used on the peer, channel latency?). *)
 From Coq Require Import List NArith.
-From DesVerif Require Import Gate.Model Gate.Sym Gate.Walk Gate.Deliver Gate.Reach Gate.Spawn.
+From DesVerif Require Import Gate.Model Gate.Sym Gate.Walk Gate.Deliver Gate.Reach Gate.Spawn Gate.Queue.
 Import ListNotations.
 Open Scope N_scope.
 
@@ -195,6 +195,30 @@ Theorem C08_spawned_gates_owner : forall owners ops caller target size more j,
            (N.of_nat (length (sgates (fst (exec (init owners) ops)))) + N.of_nat j) = target.
 Proof. exact spawned_gates_owner. Qed.
 Print Assumptions C08_spawned_gates_owner.
+
+(* A message that waits in the queue of a busy Queue-policy channel continues
+   on exactly the connection it was offered on: the buffer keeps (target gate,
+   slot index on the target gate) of every offer, in FIFO order; after the wait
+   send_message restores the channel handle, giving back the offered connection;
+   and the gate / module a walk ends at does not depend on when it continues.
+   (How long the message waits is C07's subject.) *)
+Theorem C08_queue_preserves_connection : forall offers : list (N * conn),
+  let b := enqueue_all [] offers in
+  map (fun x => (fst x, (endpoint (snd x), endpoint_id (snd x)))) (dequeue_all (length b) b) =
+  map (fun x => (fst x, (endpoint (snd x), endpoint_id (snd x)))) offers.
+Proof. exact queue_preserves_connection. Qed.
+Print Assumptions C08_queue_preserves_connection.
+
+Theorem C08_queued_message_resumes_on_offered_connection : forall ch con m,
+  channel con = Some ch ->
+  (forall c' r, dequeue (enqueue [] m con) = Some ((m, c'), r) -> restore ch c' = con) /\
+  (forall gs fuel now last_g o t l, handle_with_sink fuel gs con now last_g = Some (o, t, l) ->
+     forall now', exists t', handle_with_sink fuel gs con now' last_g = Some (o, t', l)).
+Proof.
+  intros ch con m Hc. split; [exact (resume_same_connection ch con m Hc)|].
+  intros gs fuel now last_g o t l. exact (hws_route_time_indep gs fuel con now last_g o t l).
+Qed.
+Print Assumptions C08_queued_message_resumes_on_offered_connection.
 
 (* Non-vacuity (run-time wiring): module 0 creates gate g1 on itself and gate g2
    on module 1 through module 1's spawner, connects them at run time and sends:
